@@ -80,9 +80,16 @@ package value
 //@   ensures len(st.storage.data) >= old(len(st.storage.data))
 //@   ensures forall i in 0..st.offs+st.size :: st.storage.data[i] == old(st.storage.data[i])
 //@   assigns any List.items, any List.itemsPresent, any List.iterable, any funcGen.stackStorage[Value].data, any []Value
+// whether a value presents itself as a list / a map is a fixed property of the value (ghost listLike / mapLike)
+//@ ghost func listLike(v any) bool
+//@ ghost func mapLike(v any) bool
 //@ interface-contract Value.ToList
+//@   option impl-check=frame
+//@   ensures[list-like] result1 == listLike(self)
 //@   assigns nothing
 //@ interface-contract Value.ToMap
+//@   option impl-check=frame
+//@   ensures[map-like] result1 == mapLike(self)
 //@   assigns nothing
 //@ interface-contract Value.ToFloat
 //@   property C07
